@@ -168,7 +168,7 @@ theorem meanToMidBody_R (iz : Bool) (normal : List Num) {a a' : Arr} (h : ArrR a
   unfold meanToMidBody
   rw [valid_ArrR h]
   split_goal
-  all_goals first | exact ExceptR.eRaw _ | exact ExceptR.eMp _ _ | exact curveBody_R _ _ _ h
+  all_goals first | exact ExceptR.eRaw _ | exact ExceptR.eMp _ _ | exact ExceptR.err _ | exact curveBody_R _ _ _ h
 
 theorem getD_R {l l' : List Cell} (h : List.Forall₂ CellR l l') (i : Nat) : CellR (l.getD i default) (l'.getD i default) := by
   induction h generalizing i with
